@@ -90,6 +90,20 @@ def build_operator(kind, N, rA, dt):
             term = torchtt.TT([f.reshape(1, f.shape[0], f.shape[1], 1) for f in factors])
             A = term if A is None else A + term
         return A.round(1e-13)
+    if kind == "conv":
+        # convection dominated, strictly diagonally dominant, strongly non-normal: sum_k I x .. x tridiag(-(1+a), 2+shift, -(1-a)) x .. x I
+        a_, shift = 0.8, 1.0
+        A = None
+        for k in range(d):
+            n = N[k]
+            Tk = (2.0 + shift / d) * torch.eye(n, dtype=dt)
+            if n > 1:
+                Tk = Tk - (1 + a_) * torch.diag(torch.ones(n - 1, dtype=dt), -1) - (1 - a_) * torch.diag(torch.ones(n - 1, dtype=dt), 1)
+            factors = [torch.eye(m, dtype=dt) for m in N]
+            factors[k] = Tk
+            term = torchtt.TT([f.reshape(1, f.shape[0], f.shape[1], 1) for f in factors])
+            A = term if A is None else A + term
+        return A.round(1e-13)
     B = rand_tt(torchtt, sq, rA, dt)
     if kind == "spd":
         S = B + B.t()
@@ -200,6 +214,12 @@ def enumerate_cases(tier, seed):
             for mf in (500, 0):
                 cases.append(_mk(kind, N, rA, 1, 1e-8, None, None, mf, 1, seeds[0], rhs="alt"))
                 cases.append(_mk(kind, N, rA, 1, 1e-6, "disjoint", None, mf, 1, seeds[0]))
+    # round 6: non-symmetric, strongly non-normal operators with a preconditioner and the iterative local solvers (the preconditioned
+    # local matvec must use the A core, not its transpose)
+    for N in ([[10, 12]] if quick else [[10, 12], [8, 9, 10]]):
+        for p in ("c", "r"):
+            for ls in (1, 2):
+                cases.append(_mk("conv", N, 0, 2, 1e-6, None, p, 0, ls, seeds[0]))
     for N in ([[12, 12], [10, 11, 12]] if quick else [[12, 12], [10, 11, 12], [12, 12, 12]]):
         for ls in (1, 2):
             for s in range(3 if quick else 6):          # whether a local solve needs a restart depends on the data
@@ -223,7 +243,8 @@ def bound(tier, seed):
                 "rank-2 x0 object re-used for two consecutive solves (each solve is one contract evaluation). ROUND-4 FAMILY: lap and dd(rank 3) on "
                 "[6,5,4] and [8,8] with a rank-one rhs whose last mode alternates in sign (eps 1e-8) and with rhs / initial guess of disjoint "
                 "support (eps 1e-6), max_full in {0,500}; lap [12,12] and [10,11,12] at eps=1e-10, max_full=0, no preconditioner, both iterative "
-                "local solvers, 3 seeds (local problems need several GMRES cycles)." % seed)
+                "local solvers, 3 seeds (local problems need several GMRES cycles). ROUND-6 FAMILY: conv = sum_k I x..x tridiag(-1.8, 2+1/d, -0.2) x..x I on "
+                "[10,12], preconditioner in {'c','r'}, max_full=0, both iterative local solvers, eps 1e-6." % seed)
     return ("C12 thorough: shapes of order 2..5 with mode sizes 2..12 (10 shapes), operators spd(rank-1 B), dd (rank 1 and 3 B), "
             "lap; rhs ranks {1,4}; eps in {1e-3,1e-6,1e-10}; x0 in {None, random rank 1, rank 3}; all 12 combinations of "
             "preconditioner x max_full x local_solver; seeds {%d,1,2}. Same contract as quick (incl. guess_unchanged and the "
